@@ -206,6 +206,15 @@ func runC02(c *Ctx) {
 		kp := randKey(c)
 		do("uniform", dataScript(c.rng.Bytes(32), c.rng.Bytes(32)), kp.priv, c.rng.Bytes(32))
 	}
+	// long runs of rejected candidates (no retry bound in the signer either)
+	for _, nrej := range []int{15, 16, 17, 40} {
+		var chunks [][]byte
+		for j := 0; j < nrej; j++ {
+			chunks = append(chunks, [][]byte{allFF, bigK, be32(curveN), zeroK}[(j+nrej)%4])
+		}
+		do(fmt.Sprintf("many-rejected/%d/then-end", bucket(nrej)), dataScript(chunks...), keys[2].priv, c.rng.Bytes(32))
+		do(fmt.Sprintf("many-rejected/%d/then-valid", bucket(nrej)), dataScript(append(chunks, be32(randK(c)))...), keys[2].priv, c.rng.Bytes(32))
+	}
 	// several candidates inside one Read (a single data item holding 2..5 candidates, the first ones rejected)
 	for nrej := 1; nrej <= 4; nrej++ {
 		var blob []byte
@@ -236,7 +245,7 @@ func runC02(c *Ctx) {
 }
 
 func runC19(c *Ctx) {
-	c.res.Rule = "scripted readers failing (error or EOF) at every (call index x byte offset 0..32) after 0..3 rejected candidates, for key generation and signing; short reads without error (1 byte at a time, 31+1, zero-byte reads followed by data); nil reader; class = (operation, rejected candidates before the failure, offset bucket, failure kind)"
+	c.res.Rule = "scripted readers failing (error or EOF) at every (call index x byte offset 0..32) after 0..3 rejected candidates, for key generation and signing; a Read that returns bytes TOGETHER with an error in the middle of a draw, followed by good data; short reads without error (1 byte at a time, 31+1, zero-byte reads followed by data); nil reader; class = (operation, rejected candidates before the failure, offset bucket, failure kind)"
 	kp := randKey(c)
 	e := c.rng.Bytes(32)
 	bad := [][]byte{be32(curveN), make([]byte, 32), be32(new(big.Int).Sub(curveN, big.NewInt(1)))}
@@ -250,7 +259,10 @@ func runC19(c *Ctx) {
 	for _, op := range []string{"genkey", "sign"} {
 		for rej := 0; rej <= 3; rej++ {
 			for off := 0; off <= 32; off += step {
-				for _, fk := range []string{"fail", "eof"} {
+				for _, fk := range []string{"fail", "eof", "data+err"} {
+					if fk == "data+err" && (off == 0 || off == 32) {
+						continue
+					}
 					var items []scriptItem
 					for j := 0; j < rej; j++ {
 						b := bad[j%len(bad)]
@@ -260,7 +272,11 @@ func runC19(c *Ctx) {
 						items = append(items, scriptItem{'d', b})
 					}
 					good := be32(randK(c))
-					if off > 0 {
+					if fk == "data+err" {
+						// the partial draw and the error arrive in ONE Read; what follows would complete the draw and
+						// supply further valid candidates, and must not be used (seeded C19-c dropped such an error)
+						items = append(items, scriptItem{'e', good[:off]}, scriptItem{'d', append(append([]byte(nil), good[off:]...), be32(randK(c))...)})
+					} else if off > 0 {
 						items = append(items, scriptItem{'d', good[:off]})
 					}
 					if fk == "fail" {
@@ -357,6 +373,18 @@ func runC12(c *Ctx) {
 		gen(fmt.Sprintf("one-item/%drejected", nrej), []scriptItem{{'d', blob}})
 	}
 	gen("four-rejected", dataScript(be32(boundary["0"]), be32(boundary["n-1"]), be32(boundary["n"]), be32(boundary["max"]), be32(randK(c))))
+	// LONG runs of rejected candidates (the loop has no bound: a retry limit that gives up — or gives back the last
+	// rejected candidate — after 16 draws shows only here; seeded C12-c), ending in a valid candidate or in the end of
+	// the stream
+	rej := []*big.Int{boundary["max"], boundary["n-1"], boundary["n"], boundary["0"], boundary["n+1"]}
+	for _, nrej := range []int{8, 15, 16, 17, 18, 33, 70} {
+		var chunks [][]byte
+		for j := 0; j < nrej; j++ {
+			chunks = append(chunks, be32(rej[(j+nrej)%len(rej)]))
+		}
+		gen(fmt.Sprintf("many-rejected/%d/then-end", bucket(nrej)), dataScript(chunks...))
+		gen(fmt.Sprintf("many-rejected/%d/then-valid", bucket(nrej)), dataScript(append(chunks, be32(randK(c)))...))
+	}
 	for i := 0; i < nRand; i++ {
 		gen("uniform", dataScript(c.rng.Bytes(32), c.rng.Bytes(32)))
 	}
